@@ -448,6 +448,8 @@ func VerifScrapeLocks(hist uint32) (interface{}, interface{}) { return metricsRe
 	}
 	bexp := `package batched
 
+import "` + modPath + `/verifshim/vsync"
+
 // VerifAddConn adds one pooled connection to the relay of the socket (what the monitor does when
 // it decides to expand).
 func VerifAddConn(sock string) {
@@ -473,6 +475,13 @@ func VerifForget(sock string) {
 	relayLock.Lock()
 	delete(relays, sock)
 	relayLock.Unlock()
+}
+
+// VerifFreshRelayTable starts an execution with an empty relay table under a lock of its own: an
+// earlier execution that ended while a relay was still being set up keeps the old lock for ever.
+func VerifFreshRelayTable() {
+	relays = make(map[string]*relay)
+	relayLock = new(vsync.RWMutex) // (relay.go gets its sync from the shim, like every file of rend)
 }
 `
 	dst = filepath.Join(work, "batched__verif_export.go")
